@@ -21,7 +21,8 @@ With `hist=`: <call> = <invoke time>/<return time>/<op>/<observed result>, ops r
 as above.  The answer is `ok lin=1 closes=… wgot=… wcl=…` if the calls can be put in an order that
 respects real time (a call that returned before another was invoked comes first) such that running
 `Tee.apply` in that order yields every observed result — i.e. the real execution is a run of
-`TeeConc` — and `ok lin=0` otherwise.
+`TeeConc` — and `ok lin=0` otherwise.  With `final=<src closes>/<writer hex>/<writer closes>` the
+linearization must also end in that state.
 Everything is computed by the definitions of `KitModel/Streams.lean` the theorems are about.
 -/
 namespace Driver.C16
@@ -134,10 +135,17 @@ def teeFinal (t : Tee) : String := s!"closes={t.src.closes} wgot={toHex t.w.got}
 
 /-- depth-first search for a linearization; `fuel` = number of calls still to place.  Returns the
 final state of the first linearization found. -/
-def linearize : Nat → Tee → List Call → Option Tee
-  | 0, t, rem => if rem.isEmpty then some t else none
+def teeFinalShort (t : Tee) : String := s!"{t.src.closes}/{toHex t.w.got}/{t.w.closes}"
+
+def finalOk (fin : Option String) (t : Tee) : Option Tee :=
+  match fin with
+  | none => some t
+  | some f => if teeFinalShort t == f then some t else none
+
+def linearize (fin : Option String) : Nat → Tee → List Call → Option Tee
+  | 0, t, rem => if rem.isEmpty then finalOk fin t else none
   | fuel + 1, t, rem =>
-    if rem.isEmpty then some t else
+    if rem.isEmpty then finalOk fin t else
     -- a call may come next iff no other remaining call returned before it was invoked
     let minRet := rem.foldl (fun m c => min m c.ret) (rem.headD ⟨0, 0, .close, ""⟩).ret
     let cands := (List.range rem.length).filter fun i =>
@@ -150,7 +158,7 @@ def linearize : Nat → Tee → List Call → Option Tee
       | some c =>
         match t.apply c.op with
         | (t', d, e) =>
-          if showTeeRes c.op d e == c.res then linearize fuel t' (rem.eraseIdx i) else none
+          if showTeeRes c.op d e == c.res then linearize fin fuel t' (rem.eraseIdx i) else none
 
 def answer (line : String) : String :=
   let l := parseLine line
@@ -178,7 +186,7 @@ def answer (line : String) : String :=
     match l.get? "hist", st with
     | some h, .tee t =>
       let calls ← (if h == "" then some [] else (h.splitOn ";").mapM parseCall)
-      match linearize calls.length t calls with
+      match linearize (l.get? "final") calls.length t calls with
       | some t' => some s!"ok lin=1 {teeFinal t'}"
       | none => some "ok lin=0"
     | some _, _ => none
